@@ -428,6 +428,7 @@ using DenseDense = FlatRun<M::Experience, M::MaximumLikelihoodModel<M::Experienc
 using SparseDense = FlatRun<M::SparseExperience, M::MaximumLikelihoodModel<M::SparseExperience>>;
 using SparseSparse = FlatRun<M::SparseExperience, M::SparseMaximumLikelihoodModel<M::SparseExperience>>;
 using GenericDense = FlatRun<GenericExperience, M::MaximumLikelihoodModel<GenericExperience>>;
+using GenericSparse = FlatRun<GenericExperience, M::SparseMaximumLikelihoodModel<GenericExperience>>;
 
 template <class Run>
 static void randomFlat(const char * variant, Rng & rng, const std::string & tier, long idx, bool junkClass, double junk) {
@@ -503,11 +504,33 @@ void verif::verif_case(Rng & rng, long idx, const std::string & tier) {
             scripted<GenericExperience, M::MaximumLikelihoodModel<GenericExperience>>("generic", 3, 1,
                 {{CTOR, 0}, {REC, 0, 0, 1, 1.0}, {REC, 0, 0, 2, 2.0}, {SYNC, 0, 0}}, junk, true);
             return;
-        case 9: case 10: case 11: return;   // reserved
+        case 9:  // finding C07-sparse-generic-sync: sparse model over a getter-only experience, first sync(s,a) after two records
+            scripted<GenericExperience, M::SparseMaximumLikelihoodModel<GenericExperience>>("gsparse", 3, 1,
+                {{CTOR, 0}, {REC, 0, 0, 1, 1.0}, {REC, 0, 0, 2, 2.0}, {SYNC, 0, 0}}, junk, false);
+            return;
+        case 10: case 11: return;   // reserved
         default: break;
     }
     long k = idx - kFixed;
     long nops = tier == "thorough" ? 1500 : 150;
+    if (k % 23 == 22) {
+        // sparse model over the getter-only experience.  Its element-wise sync(s,a) leaves cells without visits untouched
+        // (finding C07-sparse-generic-sync); histories here sync every pair right after its first record and never reset,
+        // which is the only regime in which that branch is right.
+        FlatOpts o; o.S = (size_t)rng.range(1, 4); o.A = (size_t)rng.range(1, 2); o.nops = 0;
+        GenericSparse fr(o, rng, "gsparse");
+        fr.doCtor(false);
+        long n = rng.range(5, tier == "thorough" ? 600 : 120);
+        for (long q = 0; q < n; ++q) {
+            size_t p = rng.below(o.S * o.A), s1 = rng.below(o.S);
+            fr.doRecord(p / o.A, p % o.A, s1, drawReward(rng, 0));
+            if (fr.N[p] == 1 || rng.coin(2, 3)) { if (rng.coin() && fr.pend[p] == 1) fr.doInc(p / o.A, p % o.A, s1); else fr.doSync(p / o.A, p % o.A); }
+            if (rng.coin(1, 25)) fr.doSyncAll();
+        }
+        fr.finish(junk);
+        std::printf("#stat flat_gsparse 1\n");
+        return;
+    }
     switch (k % 11) {
         case 0: case 1: randomFlat<DenseDense>("dense", rng, tier, idx, true, junk); break;
         case 2: randomFlat<SparseDense>("dsparse", rng, tier, idx, true, junk); break;
